@@ -1337,7 +1337,7 @@ func gen(seed uint64, tier string) {
 		g := &gctx{r: r, dyadic: it%5 != 4}
 		if g.dyadic {
 			g.tol = dy[r.Intn(len(dy))]
-			if it%6 == 2 {
+			if it%12 == 2 {
 				g.tol = dyx[r.Intn(len(dyx))]
 			}
 			g.ox, g.oy = float64(r.Range(-40, 40))*64*g.tol, float64(r.Range(-40, 40))*64*g.tol
